@@ -29,12 +29,14 @@ class Ob:
 
 
 class H:
-    def __init__(self, L=1, cap_bs=4, rank_bits=0, caps=None, ws=None, timeout_s=120):
+    def __init__(self, L=1, cap_bs=4, rank_bits=0, caps=None, ws=None, timeout_s=120, hybrid=False, field_bits=0):
         c = {'Identifier': L + 1, 'BoundSet': cap_bs}
         c.update(caps or {})
         self.L, self.cap_bs = L, cap_bs
         self.eng = workspace.load(caps=c, ws=ws)
         self.rank = rank_bits > 0
+        self.hybrid = hybrid and self.rank
+        self.field_bits = field_bits
         if self.rank:
             self.eng.enable_rank_mode(rank_bits)
         e = self.eng
@@ -70,7 +72,7 @@ class H:
         wf = self.wf if wf is None else wf
         v = fresh(self.V, name, wf)
         for i in range(3):
-            wf.append(z3.ULE(v.fs[i].t, MAXS))
+            wf.append(z3.ULE(v.fs[i].t, MAXS) if not self.field_bits else z3.ULT(v.fs[i].t, 1 << self.field_bits))
         # input lists are bounded by L (capacity L+1 leaves room for the one push min_version makes)
         wf.append(z3.ULE(v.fs[3].len, self.L if max_build is None else max_build))
         wf.append(z3.ULE(v.fs[4].len, self.L if max_pre is None else max_pre))
@@ -202,6 +204,10 @@ class H:
         return [self.dec_ident(m, vec.slots[i]) for i in range(min(n, vec.ty.cap)) if vec.slots[i] is not None]
 
     def dec_version(self, m, v):
+        if self.hybrid:
+            pre = self.ev(m, v.fs[4].len).as_long() != 0
+            return {'major': self.ev(m, v.fs[0].t).as_long(), 'minor': self.ev(m, v.fs[1].t).as_long(), 'patch': self.ev(m, v.fs[2].t).as_long(),
+                    'pre': [{'n': self.ev(m, v.fs[-1].t).as_long()}] if pre else [], 'build': [], 'rank': self.ev(m, v.fs[-1].t).as_long()}
         if self.rank:
             return {'major': self.ev(m, v.fs[-1].t).as_long(), 'minor': 0, 'patch': 0, 'pre': [], 'build': [], 'rank': True}
         return {'major': self.ev(m, v.fs[0].t).as_long(), 'minor': self.ev(m, v.fs[1].t).as_long(),
@@ -259,4 +265,24 @@ class H:
         return 'unknown', None, dt
 
     def wf_common(self):
-        return []
+        """hybrid mode: consequences of SemVer precedence (C04: [[Version::cmp]] = O-order) that tie the ghost rank to
+        the (major, minor, patch, has-prerelease) fields the gate reads; identifiers themselves stay abstract"""
+        if not self.hybrid:
+            return []
+        out = []
+        vs = self.versions
+        for i in range(len(vs)):
+            for j in range(len(vs)):
+                if i == j:
+                    continue
+                a, b = vs[i], vs[j]
+                ra, rb = a.fs[-1].t, b.fs[-1].t
+                tl = OR(z3.ULT(a.fs[0].t, b.fs[0].t), AND(a.fs[0].t == b.fs[0].t, z3.ULT(a.fs[1].t, b.fs[1].t)),
+                        AND(a.fs[0].t == b.fs[0].t, a.fs[1].t == b.fs[1].t, z3.ULT(a.fs[2].t, b.fs[2].t)))
+                same = self.same_tuple(a, b)
+                out.append(z3.Implies(tl, z3.ULT(ra, rb)))
+                out.append(z3.Implies(AND(same, self.is_pre(a), NOT(self.is_pre(b))), z3.ULT(ra, rb)))
+                if i < j:
+                    out.append(z3.Implies(AND(same, NOT(self.is_pre(a)), NOT(self.is_pre(b))), ra == rb))
+                    out.append(z3.Implies(ra == rb, AND(same, self.is_pre(a) == self.is_pre(b))))
+        return out
